@@ -117,7 +117,7 @@ Proof.
     unfold df_clean in FD. apply andb_true_iff in FD as [FD _]. apply andb_true_iff in FD as [FO FR].
     apply negb_true_iff in FO. destruct (df_read_at df) eqn:RA; [discriminate|].
     unfold dir_decision. destruct (should_skip_dir c ms p); [reflexivity|].
-    assert (H : exists ms', (if c_gitignore c then match parse_dir_gi p ch with GiErr => DGiErr | GiOk m => DEnter (m :: ms) end else DEnter ms) = DEnter ms').
+    assert (H : exists ms', (if c_gitignore c then match parse_dir_gi p ch with GiErr => if c_fatal c then DGiErr else DEnter (None :: ms) | GiOk m => DEnter (m :: ms) end else DEnter ms) = DEnter ms').
     { destruct (c_gitignore c); [|eexists; reflexivity]. destruct (parse_dir_gi_ff p ch FC) as [m ->]. eexists; reflexivity. }
     destruct H as [ms' ->]. cbn [andb]. rewrite FO, sched_children_none, forallb_flat_map.
     apply forallb_forall. intros c1 Hin. rewrite Forall_forall in IH. apply IH; [exact Hin|].
